@@ -11,6 +11,7 @@ import (
 	"go/token"
 	"go/types"
 	"sort"
+	"strconv"
 	"strings"
 
 	"golang.org/x/tools/go/ssa"
@@ -118,6 +119,12 @@ func (t *Term) isConstInt() (int64, bool) {
 		if c, ok := t.Val.(*ssa.Const); ok && c.Value != nil && c.Value.Kind() == constant.Int {
 			v, exact := constant.Int64Val(c.Value)
 			return v, exact
+		}
+		// synthetic integer constants (the implicit 0 of s[:k], intConstTerm)
+		if t.Val == nil {
+			if v, err := strconv.ParseInt(t.Name, 10, 64); err == nil {
+				return v, true
+			}
 		}
 	}
 	return 0, false
@@ -393,6 +400,22 @@ func (c *Ctx) term(v ssa.Value) *Term {
 	case *ssa.Builtin:
 		return &Term{Kind: "builtin", Name: x.Name(), Val: x}
 	case *ssa.Alloc:
+		// the compiler's spill of a by-value parameter that an inlined context binds: &(argument)
+		if len(c.bind) > 0 && x.Referrers() != nil {
+			n := 0
+			var src ssa.Value
+			for _, r := range *x.Referrers() {
+				if st, ok := r.(*ssa.Store); ok && st.Addr == ssa.Value(x) {
+					n++
+					src = st.Val
+				}
+			}
+			if prm, ok := src.(*ssa.Parameter); ok && n == 1 {
+				if bt, ok := c.bind[prm]; ok {
+					return &Term{Kind: "unop", Name: "&", Args: []*Term{bt}}
+				}
+			}
+		}
 		return &Term{Kind: "alloc", Name: "&" + x.Comment + "#" + c.instrID(x), Val: x}
 	case *ssa.Phi:
 		return &Term{Kind: "phi", Name: x.Comment + "#" + c.instrID(x), Val: x, C: c}
@@ -471,7 +494,7 @@ func (c *Ctx) term(v ssa.Value) *Term {
 		return &Term{Kind: "typeassert", Name: typeName(x.AssertedType), Args: []*Term{c.Term(x.X)}}
 	case *ssa.MakeClosure:
 		f, _ := x.Fn.(*ssa.Function)
-		return &Term{Kind: "closure", Name: funcID(f), Fn: f, ID: c.instrID(x)}
+		return &Term{Kind: "closure", Name: funcID(f), Fn: f, ID: c.instrID(x), C: c}
 	case *ssa.MakeSlice:
 		return &Term{Kind: "makeslice", Name: "make", Args: []*Term{c.Term(x.Len)}, ID: c.instrID(x)}
 	case *ssa.MakeMap, *ssa.MakeChan:
@@ -593,6 +616,40 @@ func rangeLoopOf(idx ssa.Value) *ssa.Phi {
 	return nil
 }
 
+// closureCtx: the context of a call of the closure made by mc (an instruction of c's function):
+// parameters bound to args, captured variables bound to the value they hold where the closure is
+// made (read-only captures). nil when a capture cannot be resolved.
+func (c *Ctx) closureCtx(mc *ssa.MakeClosure, call ssa.Instruction, args []*Term) *Ctx {
+	cf, _ := mc.Fn.(*ssa.Function)
+	if cf == nil || cf.Blocks == nil {
+		return nil
+	}
+	ch := c.child(cf, call, args)
+	pos, okp := c.fi.pos[mc]
+	for i, fv := range cf.FreeVars {
+		if i >= len(mc.Bindings) {
+			return nil
+		}
+		b := mc.Bindings[i]
+		if al, ok := b.(*ssa.Alloc); ok {
+			if !readOnlyFreeVar(cf, fv) || !okp {
+				return nil
+			}
+			var val *Term
+			if c.fi.tracked[al] {
+				val = c.memAt(al, nil, pos[0], pos[1], al.Type().(*types.Pointer).Elem())
+			}
+			if val == nil {
+				val = &Term{Kind: "deref", Args: []*Term{c.Term(al)}}
+			}
+			ch.bind[fv] = &Term{Kind: "unop", Name: "&", Args: []*Term{val}}
+			continue
+		}
+		ch.bind[fv] = c.Term(b)
+	}
+	return ch
+}
+
 func (c *Ctx) indexTerm(x, idx ssa.Value) *Term {
 	base := c.Term(x)
 	// &slice[i] where x is itself a loaded slice; or array pointer
@@ -634,7 +691,8 @@ func (c *Ctx) load(u *ssa.UnOp) *Term {
 		return &Term{Kind: "global", Name: x.Pkg.Pkg.Name() + "." + x.Name(), Obj: x.Object(), Val: x}
 	case *ssa.Alloc:
 		// untracked local (escapes): opaque per load
-		return &Term{Kind: "deref", Args: []*Term{c.Term(x)}, ID: c.instrID(u)}
+		raw := &Term{Kind: "alloc", Name: "&" + x.Comment + "#" + c.instrID(x), Val: x, Typ: x.Type()}
+		return &Term{Kind: "deref", Args: []*Term{raw}, ID: c.instrID(u)}
 	}
 	base := c.Term(addr)
 	if base.Kind == "unop" && base.Name == "&" {
@@ -1017,6 +1075,39 @@ func (c *Ctx) callTerm(call *ssa.Call) *Term {
 		}
 		return &Term{Kind: "call", Name: b.Name(), Args: args, ID: c.instrID(call)}
 	}
+	// a floating-point expression written as a helper or a local closure: one block, one result,
+	// no effects — the call is its returned expression over the arguments
+	if isFloat64(call.Type()) {
+		var ch *Ctx
+		if f := cc.StaticCallee(); f != nil {
+			if _, isMC := cc.Value.(*ssa.MakeClosure); !isMC && c.inlinable(f) && len(f.Blocks) == 1 && len(f.FreeVars) == 0 {
+				ch = c.child(f, call, args)
+			}
+		}
+		if mc, ok := cc.Value.(*ssa.MakeClosure); ok {
+			if f, _ := mc.Fn.(*ssa.Function); f != nil && f.Blocks != nil && len(f.Blocks) == 1 && c.depth < c.maxD {
+				ch = c.closureCtx(mc, call, args)
+			}
+		}
+		if ch != nil {
+			if r, ok := ch.fn.Blocks[0].Instrs[len(ch.fn.Blocks[0].Instrs)-1].(*ssa.Return); ok && len(r.Results) == 1 {
+				pure := true
+				for _, in := range ch.fn.Blocks[0].Instrs {
+					switch y := in.(type) {
+					case *ssa.Store:
+						if _, isAlloc := baseOfAddr(y.Addr).(*ssa.Alloc); !isAlloc {
+							pure = false
+						}
+					case *ssa.Defer, *ssa.Go, *ssa.Panic, *ssa.MapUpdate, *ssa.Send:
+						pure = false
+					}
+				}
+				if pure {
+					return ch.Term(r.Results[0])
+				}
+			}
+		}
+	}
 	if f := cc.StaticCallee(); f != nil {
 		name := funcID(f)
 		if !c.p.inRepo(f) {
@@ -1368,6 +1459,13 @@ func (c *Ctx) edgeCond(p, b *ssa.BasicBlock) *Formula {
 		return FTrue
 	}
 	if br, ok := p.Instrs[len(p.Instrs)-1].(*ssa.If); ok {
+		// leaving a range loop through its header ("the traversal is over") always happens: it is not a
+		// condition on the state the code after the loop runs in
+		for _, l := range loopsOf(p.Parent()) {
+			if l.Header == p && l.IsRange() && !l.Blocks[b] {
+				return FTrue
+			}
+		}
 		t, f := p.Succs[0] == b, p.Succs[1] == b
 		switch {
 		case t && f:
